@@ -26,7 +26,7 @@ pub struct M {}
 
 fn max_len(tier: Tier, light: bool) -> u32 {
     if light {
-        3
+        2
     } else if tier == Tier::Thorough {
         6
     } else {
@@ -41,7 +41,7 @@ pub fn exh_chunks(tier: Tier, light: bool) -> u64 {
 }
 pub fn id_chunks(light: bool) -> u64 {
     if light {
-        4
+        2
     } else {
         (12u64.pow(4) + ID_CHUNK - 1) / ID_CHUNK
     }
@@ -227,7 +227,9 @@ impl Monitor for M {
         let i = i - ec;
         if i < ic {
             ctx.obs("chunks.exhaustive_ids");
-            for code in i * ID_CHUNK..((i + 1) * ID_CHUNK).min(12u64.pow(4)) {
+            // interpreters: 8 ids per chunk, spread over the id space
+            let (lo, hi, step) = if light { (i * 5003, i * 5003 + 8 * 997, 997) } else { (i * ID_CHUNK, ((i + 1) * ID_CHUNK).min(12u64.pow(4)), 1) };
+            for code in (lo..hi).step_by(step) {
                 let mut c = code;
                 let mut id = [0u8; 4];
                 for b in id.iter_mut() {
